@@ -59,6 +59,10 @@ def make_case(rng, i):
         forced = False
     if (i // 3) % 40 == 1:
         m, e, n, forced = 35, 2, 30, True          # the known trigger dt=0.35 s, T=10.5 s
+    long_run = i % 40 == 37
+    if long_run:
+        # thousands of steps: the float quotient T/dt carries an excess of a few ulps that grows with the step count
+        m, e, n, forced = rng.randint(1, 999), rng.randint(0, 4), rng.randint(4100, 9000), False
     udt, uT = SI.units('TimeInterval')[i % 4], SI.units('TimeInterval')[(i // 4) % 4]
     dtv = float(f'{m}e-{e}')
     form = 'product' if (i // 16) % 2 == 0 else 'literal'
@@ -86,6 +90,9 @@ def make_case(rng, i):
     sched = [{'op': 'run', 'dt': dt, 'T': T}]
     kind = i % 7
     info = {'m': m, 'e': e, 'n': n, 'form': form, 'forced': forced, 'kind': 'fresh'}
+    if long_run:
+        info['long_run'] = True
+        kind = 0
     if kind in (1, 2, 3):
         info['kind'] = 'continued'
         if kind == 1:
@@ -216,6 +223,8 @@ def one(ctx, i):
         ctx.count('overrun_prone_pairs')
     if spec['load'].get('reentrant'):
         ctx.count('load_functions_converting_the_instant_in_place')
+    if info.get('long_run'):
+        ctx.count('runs_of_more_than_4000_steps')
     if info.get('converted_in_place'):
         ctx.count('durations_converted_in_place')
     if info.get('failed_first_attempt'):
